@@ -557,6 +557,28 @@ def run(chk: Check) -> int:
             chk.fail(sig, f"BalancingLearner({spec['nchild']} x {spec['kind']}, strategy={spec['strategy']}): {msg}",
                      {"spec": spec, "ops": small})
 
+    totals = {"cases": 0, "mism": 0, "legal": 0}
+
+    def flush(tag):
+        # evaluate the accumulated cases inside Coq, then forget them (memory)
+        if not cases:
+            return
+        mism, legal, errors = chk.coq_cases(tag, PREAMBLE, "case", cases, "check", "is_legal",
+                                            shard=min(250, max(8, len(cases) // 16 + 1)))
+        for e in errors:
+            chk.broke("correspondence", "Model/Balancing.v cases could not be evaluated", e)
+        for c, s in mism[:5]:
+            m = metas[c]
+            chk.broke("correspondence", f"Model/Balancing.v (repaired={rep}) vs BalancingLearner: case {m['origin']} step {s}",
+                      {"spec": m["spec"], "ops": m["ops"][:s + 1]})
+        totals["cases"] += len(cases)
+        totals["mism"] += len(mism)
+        totals["legal"] += legal
+        for f in chk.work.glob(tag + "_*.v"):
+            f.unlink()
+        cases.clear()
+        metas.clear()
+
     corpus = sorted((chk.work.parents[1] / "corpus" / "C15").glob("*.json"))
     for f in corpus:
         d = json.loads(f.read_text())
@@ -571,6 +593,9 @@ def run(chk: Check) -> int:
         ml = maxlen if kind != "lnd" else min(maxlen, 22)
         res = drive(spec, gen_history(rng, ml, rng.random() < 0.06), rng)
         add(spec, res, f"seed{chk.seed}/{k}")
+        if len(cases) >= 1500:
+            flush(f"cases{k}")
+    flush("cases")
     exhaustive = 0
     if not chk.quick:
         # every op sequence of length <= 4 over a 9-letter alphabet, after a fixed warm-up, two Learner1D children,
@@ -588,21 +613,15 @@ def run(chk: Check) -> int:
                     res = drive(spec, hist, random.Random(exhaustive))
                     add(spec, res, f"exhaustive/{st}/{exhaustive}")
                     exhaustive += 1
-    mism, legal, errors = chk.coq_cases("cases", PREAMBLE, "case", cases, "check", "is_legal",
-                                        shard=max(8, len(cases) // 16 + 1))
-    for e in errors:
-        chk.broke("correspondence", "Model/Balancing.v cases could not be evaluated", e)
-    for c, s in mism[:5]:
-        m = metas[c]
-        chk.broke("correspondence", f"Model/Balancing.v (repaired={rep}) vs BalancingLearner: case {m['origin']} step {s}",
-                  {"spec": m["spec"], "ops": m["ops"][:s + 1]})
+            flush("exh_" + STRAT_TERM[st])
+    flush("cases")
     chk.extra.update({"op_histogram": hist_ops, "length_histogram": sizes, "children_histogram": kinds,
                       "histories_stopped": stops, "oracle_strategy_iterations_checked": strat_iter,
-                      "legal_histories_per_coq": legal, "cases_compared_in_coq": len(cases),
-                      "mismatches": len(mism), "model_repaired_flag": rep,
+                      "legal_histories_per_coq": totals["legal"], "cases_compared_in_coq": totals["cases"],
+                      "mismatches": totals["mism"], "model_repaired_flag": rep,
                       "F2_probe": {"F2a_repaired": a_ok, "F2b_repaired": b_ok},
                       "exhaustive_small_scope_cases": exhaustive, "exhaustive": False})
-    chk.log(f"correspondence: {len(cases)} cases, {len(mism)} mismatches, {legal} legal; oracle signatures {sorted(seen_sig)}")
+    chk.log(f"correspondence: {totals['cases']} cases, {totals['mism']} mismatches, {totals['legal']} legal; oracle signatures {sorted(seen_sig)}")
     return chk.finish(
         rule="histories generated by driving the real BalancingLearner over 1-5 real children of one kind (Learner1D, AverageLearner, "
              "SequenceLearner, LearnerND): asks of 0-4 points under all four strategies with switches, out-of-order and unsolicited tells, "
